@@ -24,8 +24,43 @@ LABEL_FLOORS = {'power-factor>=0.1': 0.3, 'env-ideal': 0.2, 'env-real': 0.15, 'm
 
 
 @st.composite
+def tapered_v(draw):
+    """a V / bent dipole whose two arms are tapered towards or away from the apex, each arm given in either direction
+    (tapering the feed region is the usual reason to taper): every end-to-end combination of two tapered wires"""
+    f = draw(gen.frequency())
+    lam = gen.C_MHZ_M / f
+    env = draw(gen.environment(('free', 'ideal')))
+    d1 = np.array([draw(st.floats(-1, 1)), draw(st.floats(-1, 1)), draw(st.floats(-0.4, 0.4))])
+    d2 = np.array([draw(st.floats(-1, 1)), draw(st.floats(-1, 1)), draw(st.floats(-0.4, 0.4))])
+    if np.linalg.norm(d1) < 0.2 or np.linalg.norm(d2) < 0.2:
+        d1, d2 = np.array([1.0, 0.2, 0.1]), np.array([-1.0, 0.3, -0.1])
+    d1, d2 = d1 / np.linalg.norm(d1), d2 / np.linalg.norm(d2)
+    apex = np.array([0.0, 0.0, 0.0 if env['kind'] == 'free' else draw(st.floats(0.4, 1.0)) * lam])
+    objs = []
+    for d in (d1, d2):
+        n = draw(st.integers(4, 12))
+        L = draw(st.floats(0.15, 0.45)) * lam
+        r = gen.r6(lam * draw(gen.logf(2e-5, 5e-4)))
+        tip = apex + d * L
+        towards_apex_fine = draw(st.booleans())
+        rev = draw(st.booleans())            # given tip -> apex
+        p1, p2 = (tip, apex) if rev else (apex, tip)
+        fine_at = 2 if (rev == towards_apex_fine) else 1
+        o = dict(type='wire', n=n, p1=[gen.r6(x) for x in p1], p2=[gen.r6(x) for x in p2], r=r, tag=None,
+                 taper=fine_at, tmin=gen.r6(max(12 * r, lam / 180.0)), tmax=gen.r6(lam / 11.0), _rev=rev)
+        objs.append(o)
+    case = {'f': f, 'env': env, 'objs': objs, 'xforms': [], 'scales': [], 'sources': [], 'loads': []}
+    draw(gen.sources(case, 1, 2))
+    case['_info'] = dict(template='tapered-v', tag_style='auto', tapered=True)
+    return case
+
+
+@st.composite
 def case_strategy(draw, big=False):
-    if draw(st.integers(0, 5)) == 0:
+    u0 = draw(st.integers(0, 7))
+    if u0 == 7:
+        case = draw(tapered_v())
+    elif u0 == 0:
         case = draw(gen.curve_antenna(env_kinds=('free', 'ideal', 'real'), nsrc=(1, 3)))
     else:
         case = draw(gen.antenna(env_kinds=('free', 'ideal', 'real'), max_wires=4, max_seg=7 if not big else 12,
